@@ -157,19 +157,23 @@ def mono_div(m1, m2):
     return tuple(sorted(((a, e) for a, e in d.items() if e), key=lambda ae: atom_key(ae[0])))
 
 
+_ONE = Poly({(): Fraction(1)})
+
+
 class Sym:
     """num/den in light normal form (constant denominators folded, den leading coeff 1)."""
     __slots__ = ('num', 'den', '_fp')
 
     def __init__(self, num, den=None):
         if den is None:
-            den = Poly.const(1)
+            den = _ONE
         if den.is_zero():
             raise ZeroDivisionError('symbolic division by the zero polynomial')
         if den.is_const():
             c = den.const_value()
-            num = num.scale(1 / c)
-            den = Poly.const(1)
+            if c != 1:
+                num = num.scale(1 / c)
+                den = _ONE
         else:
             if not num.is_zero():
                 q, r = poly_divmod(num, den)     # exact cancellation when den divides num
@@ -181,7 +185,7 @@ class Sym:
                     num = num.scale(1 / lead)
                     den = den.scale(1 / lead)
         if num.is_zero():
-            den = Poly.const(1)
+            den = _ONE
         self.num, self.den, self._fp = num, den, None
 
     # ---- constructors
@@ -245,7 +249,10 @@ class Sym:
         return Sym(-self.num, self.den)
 
     def __sub__(self, o):
-        return self + (-as_sym(o))
+        o = as_sym(o)
+        if self.den is _ONE and o.den is _ONE:
+            return Sym(self.num - o.num)
+        return self + (-o)
 
     def __rsub__(self, o):
         return as_sym(o) - self
